@@ -1,5 +1,428 @@
-import BiomModel.C12
+/-
+  C12 — property theorems.  Every quantifier is unbounded: all count vectors (any length, any
+  counts), all depths n ≥ 1, all generator answers that keep numpy's contract, all tables (any
+  shape, any IDs), every well-formed sparse layout scipy may hand to the kernel.
+
+  `walk_hist` (Lemmas/C12.lean) is the kernel theorem; the rest follows from it.
+-/
+import BiomModel.Lemmas.C12
+
 namespace Biom.C12
+
+/-! ### the kernel, one vector -/
+
+/-- exactly `n = chosen.length` counts are drawn -/
+theorem walk_sum (counts chosen : List Nat) (hne : counts ≠ []) (hs : chosen.Pairwise (· ≤ ·))
+    (hb : ∀ p ∈ chosen, p < counts.sum) :
+    ∃ r, walk counts chosen = .ok r ∧ r.length = counts.length ∧ r.sum = chosen.length :=
+  ⟨_, walk_hist counts chosen hne hs hb, hist_length _ _, hist_sum counts chosen hb⟩
+
+/-- no entry receives more than it had (positions sorted and distinct) -/
+theorem walk_le (counts chosen : List Nat) (hne : counts ≠ []) (hs : chosen.Pairwise (· < ·))
+    (hb : ∀ p ∈ chosen, p < counts.sum) :
+    ∃ r, walk counts chosen = .ok r ∧ ∀ k, r.getD k 0 ≤ counts.getD k 0 :=
+  ⟨_, walk_hist counts chosen hne (hs.imp (fun h => Nat.le_of_lt h)) hb, hist_le counts chosen hs⟩
+
+theorem countP_or_disjoint {β : Type} (p q : β → Bool) (l : List β) (h : ∀ x ∈ l, ¬ (p x = true ∧ q x = true)) :
+    l.countP (fun x => p x || q x) = l.countP p + l.countP q := by
+  induction l with
+  | nil => rfl
+  | cons x xs ih =>
+    have hx := h x (by simp)
+    rw [List.countP_cons, List.countP_cons, List.countP_cons, ih (fun y hy => h y (by simp [hy]))]
+    cases hp : p x <;> cases hq : q x <;> simp_all <;> omega
+
+theorem countP_range_eq (a c p : Nat) :
+    (List.range c).countP (fun u => a + u == p) = if a ≤ p ∧ p < a + c then 1 else 0 := by
+  induction c with
+  | zero =>
+    have : ¬ (a ≤ p ∧ p < a + 0) := by omega
+    simp [this]
+  | succ c ih =>
+    rw [List.range_succ, List.countP_append, ih]
+    simp only [List.countP_cons, List.countP_nil, beq_iff_eq]
+    by_cases h1 : a ≤ p ∧ p < a + c
+    · have h2 : a ≤ p ∧ p < a + (c + 1) := by omega
+      have h3 : ¬ a + c = p := by omega
+      simp [h1, h2, h3]
+    · by_cases h3 : a + c = p
+      · have h2 : a ≤ p ∧ p < a + (c + 1) := by omega
+        simp [h1, h2, h3]
+      · have h2 : ¬ (a ≤ p ∧ p < a + (c + 1)) := by omega
+        simp [h1, h2, h3]
+
+/-- double counting: chosen positions in `[a, a+c)` = units `u < c` whose position `a+u` is chosen -/
+theorem countP_interval_units (l : List Nat) (hn : l.Nodup) (a c : Nat) :
+    l.countP (fun p => decide (a ≤ p) && decide (p < a + c)) =
+      (List.range c).countP (fun u => l.contains (a + u)) := by
+  induction l with
+  | nil => simp
+  | cons p ps ih =>
+    rw [List.nodup_cons] at hn
+    rw [List.countP_cons, ih hn.2]
+    have : (List.range c).countP (fun u => (p :: ps).contains (a + u)) =
+        (List.range c).countP (fun u => (a + u == p) || ps.contains (a + u)) := by
+      apply List.countP_congr
+      intro u _
+      simp [List.contains_cons]
+    rw [this, countP_or_disjoint]
+    · rw [countP_range_eq]
+      simp only [Bool.and_eq_true, decide_eq_true_eq]
+      omega
+    · intro u _ h
+      simp only [beq_iff_eq, List.contains_iff_mem] at h
+      exact hn.1 (h.1 ▸ h.2)
+
+/-- **kept ⇔ chosen**: unit `u` of entry `j` sits at position `prefix j + u`; entry `j` keeps as
+many counts as it has units whose position was chosen.  With the generator's contract ("a uniform
+`n`-subset of the positions") this is "each unit count is equally likely to be kept". -/
+theorem kept_iff_chosen (counts chosen : List Nat) (hne : counts ≠ []) (hs : chosen.Pairwise (· < ·))
+    (hb : ∀ p ∈ chosen, p < counts.sum) :
+    ∃ r, walk counts chosen = .ok r ∧ ∀ j, j < counts.length →
+      r.getD j 0 = ((List.range (counts.getD j 0)).filter (fun u => chosen.contains (prefixSum counts j + u))).length := by
+  refine ⟨_, walk_hist counts chosen hne (hs.imp (fun h => Nat.le_of_lt h)) hb, ?_⟩
+  intro j hj
+  have hnd : chosen.Nodup := hs.imp (fun h => by omega)
+  rw [List.getD_eq_getElem?_getD, hist_getElem? counts chosen j hj, Option.getD_some, ← List.countP_eq_length_filter,
+    ← countP_interval_units chosen hnd]
+  apply List.countP_congr
+  intro p _
+  simp only [inIv, prefixSum_succ]
+
+/-- the kernel on a generator answer (any order, distinct, in range): the histogram -/
+theorem subsampleVec_spec (n : Nat) (counts chosen : List Nat) (hn : 1 ≤ n) (hl : chosen.length = n)
+    (hnd : chosen.Nodup) (hb : ∀ p ∈ chosen, p < counts.sum) :
+    subsampleVec n counts chosen = .ok (hist counts chosen) ∧ (hist counts chosen).sum = n ∧
+      ∀ k, (hist counts chosen).getD k 0 ≤ counts.getD k 0 := by
+  have hne : counts ≠ [] := by
+    intro he; subst he
+    cases chosen with
+    | nil => simp at hl; omega
+    | cons p ps => have := hb p (by simp); simp at this
+  refine ⟨subsampleVec_hist n counts chosen hne hl hb, by rw [hist_sum counts chosen hb, hl], ?_⟩
+  intro k
+  have : hist counts chosen = hist counts (isort chosen) := by
+    unfold hist; rw [histFrom_perm 0 counts (isort_perm chosen)]
+  rw [this]
+  exact hist_le counts (isort chosen) (isort_strict chosen hnd) k
+
+/-! ### Table.subsample -/
+
+/-- everything `finish` (the two emptiness filters) guarantees, from per-vector facts about the
+dense grid the kernel left behind -/
+theorem finish_clauses (t : View) (dense : List (List Nat)) (n : Nat) (q : List Nat → Bool) (rel : Nat → Nat → Bool)
+    (hwf : viewWF t = true) (hlen : dense.length = t.vecs.length)
+    (hP : ∀ (i : Nat) (v d : List Nat), t.vecs[i]? = some v → dense[i]? = some d →
+      d.length = t.oids.length ∧ decide (0 < d.sum) = q v ∧ (0 < d.sum → d.sum = n) ∧
+        ∀ j, rel (d.getD j 0) (v.getD j 0) = true) :
+    (finish t dense).wfb = true ∧ (finish t dense).oids.isSublist t.oids = true ∧
+    (colSums (finish t dense).oids.length (finish t dense).vecs).all (fun s => decide (0 < s)) = true ∧
+    (finish t dense).ids = t.ids.filter (fun id => q ((t.vec? id).getD [])) ∧
+    (finish t dense).vecs.all (fun v => v.sum == n) = true ∧
+    cellsRel rel t (finish t dense) = true := by
+  obtain ⟨⟨hvl, hvr⟩, hnid, hnoid⟩ := (viewWF_iff t).mp hwf
+  -- every dense vector sits next to a vector of the table
+  have hpair : ∀ d ∈ dense, ∃ (i : Nat) (v : List Nat), t.vecs[i]? = some v ∧ dense[i]? = some d := by
+    intro d hd
+    obtain ⟨i, hi⟩ := List.mem_iff_getElem?.mp hd
+    have hil : i < dense.length := (List.getElem?_eq_some_iff.mp hi).1
+    exact ⟨i, t.vecs[i]'(by omega), List.getElem?_eq_getElem (by omega), hi⟩
+  have hrow : ∀ d ∈ dense, d.length = t.oids.length := by
+    intro d hd
+    obtain ⟨i, v, hv, hd'⟩ := hpair d hd
+    exact (hP i v d hv hd').1
+  have hkeep : dense.map (fun v => decide (0 < v.sum)) = t.vecs.map q := by
+    apply List.ext_getElem?
+    intro i
+    rw [List.getElem?_map, List.getElem?_map]
+    by_cases hi : i < dense.length
+    · have h1 : dense[i]? = some dense[i] := List.getElem?_eq_getElem hi
+      have h2 : t.vecs[i]? = some (t.vecs[i]'(by omega)) := List.getElem?_eq_getElem (by omega)
+      rw [h1, h2]
+      simp only [Option.map_some, Option.some.injEq]
+      exact (hP i _ _ h2 h1).2.1
+    · rw [List.getElem?_eq_none (by omega), List.getElem?_eq_none (by omega)]; rfl
+  have hrow' : ∀ v ∈ filterMask dense (dense.map (fun v => decide (0 < v.sum))), v.length = t.oids.length :=
+    fun v hv => hrow v (mem_of_mem_filterMask hv)
+  unfold finish
+  simp only []
+  refine ⟨?_, otherFilter_sublist _ _ _, otherFilter_nonzero _ _ _ hrow', ?_, ?_, ?_⟩
+  · exact otherFilter_wfb _ _ _ (filterMask_length_eq dense t.ids _ (by omega)) hrow'
+  · rw [otherFilter_ids, hkeep]
+    exact filterMask_ids_by_value q t.ids t.vecs [] hnid hvl.symm
+  · apply otherFilter_sums _ _ _ hrow'
+    intro d hd
+    rw [filterMask_map_self] at hd
+    obtain ⟨hd1, hd2⟩ := List.mem_filter.mp hd
+    obtain ⟨i, v, hv, hd'⟩ := hpair d hd1
+    exact (hP i v d hv hd').2.2.1 (by simpa using hd2)
+  · exact cellsRel_filters rel t dense _ hwf hlen hrow (fun i v d hv hd => (hP i v d hv hd).2.2.2)
+
+/-- **without replacement**: on the model's observation the property's predicate is true — for every
+table, layout, depth `n ≥ 1` and every generator answer within numpy's contract -/
+theorem model_holds_without (t : View) (lay : Lay) (n : Nat) (rng : Rng)
+    (hwf : viewWF t = true) (hlay : layOK t lay = true) (hn : 1 ≤ n)
+    (hrng : choicesOK n (lay.map (·.2)) rng.choices = true) :
+    holds t n .without (run t lay n .without rng) = true := by
+  obtain ⟨outs, hk, hol, hspec⟩ := kernelWithout_spec n hn _ _ hrng
+  have hst := stage1_of t lay outs
+    (fun v d => d.length = t.oids.length ∧ decide (0 < d.sum) = decide (n ≤ v.sum) ∧ (0 < d.sum → d.sum = n) ∧
+      ∀ j, decide (d.getD j 0 ≤ v.getD j 0) = true)
+    hlay (by simpa using hol)
+    (by
+      intro i v l o hv hl ho hlv
+      have hl2 : (lay.map (·.2))[i]? = some l.2 := by simp [hl]
+      obtain ⟨w1, w2, w3, w4⟩ := hspec i l.2 o hl2 ho
+      obtain ⟨d1, d2, d3, d4⟩ := dense_vec t.oids.length v l o hlv w1
+      refine ⟨d1, ?_, ?_, ?_⟩
+      · rw [d2, d3]
+        by_cases hlt : l.2.sum < n
+        · have := w2 hlt; simp only [decide_eq_decide]; omega
+        · have := w3 (by omega); simp only [decide_eq_decide]; omega
+      · intro hpos
+        rw [d2] at hpos ⊢
+        by_cases hlt : l.2.sum < n
+        · have := w2 hlt; omega
+        · exact w3 (by omega)
+      · intro j
+        exact decide_eq_true (d4 (fun a b => a ≤ b) (Nat.le_refl 0) w4 j))
+  obtain ⟨c1, c2, c3, c4, c5, c6⟩ := finish_clauses t _ n (fun v => decide (n ≤ v.sum))
+    (fun a b => decide (a ≤ b)) hwf hst.1 hst.2
+  simp only [holds, clauses, run, subsample, hk, List.all_cons, List.all_nil, List.cons_append, List.nil_append,
+    Bool.and_true, Bool.and_eq_true, beq_iff_eq, decide_true, true_and]
+  exact ⟨c1, c2, c3, c4, c5, c6⟩
+
+/-- with replacement, under the guard "every vector on the axis has a positive total" (see the witness) -/
+theorem model_holds_withRepl_partial (t : View) (lay : Lay) (n : Nat) (rng : Rng)
+    (hwf : viewWF t = true) (hlay : layOK t lay = true) (hn : 1 ≤ n)
+    (hrng : multisOK n (lay.map (·.2)) rng.multis = true)
+    (hpos : ∀ l ∈ lay, 0 < l.2.sum) :
+    holds t n .withRepl (run t lay n .withRepl rng) = true := by
+  obtain ⟨outs, hk, hol, hspec⟩ := kernelWith_spec n _ _ hrng
+    (by intro v hv; obtain ⟨l, hl, rfl⟩ := List.mem_map.mp hv; exact hpos l hl)
+  have hst := stage1_of t lay outs
+    (fun v d => d.length = t.oids.length ∧ decide (0 < d.sum) = decide (0 < v.sum) ∧ (0 < d.sum → d.sum = n) ∧
+      ∀ j, (d.getD j 0 == 0 || decide (0 < v.getD j 0)) = true)
+    hlay (by simpa using hol)
+    (by
+      intro i v l o hv hl ho hlv
+      have hl2 : (lay.map (·.2))[i]? = some l.2 := by simp [hl]
+      obtain ⟨w1, w2, w3⟩ := hspec i l.2 o hl2 ho
+      obtain ⟨d1, d2, d3, d4⟩ := dense_vec t.oids.length v l o hlv w1
+      have hlpos := hpos l (List.mem_of_getElem? hl)
+      refine ⟨d1, ?_, ?_, ?_⟩
+      · rw [d2, d3, w2]; simp only [decide_eq_decide]; omega
+      · intro _; rw [d2, w2]
+      · intro j
+        apply d4 (fun a b => (a == 0 || decide (0 < b)) = true) (by simp)
+        intro k
+        show (o.getD k 0 == 0 || decide (0 < l.2.getD k 0)) = true
+        by_cases hz : l.2.getD k 0 = 0
+        · rw [w3 k hz]; rfl
+        · have : decide (0 < l.2.getD k 0) = true := decide_eq_true (by omega)
+          rw [this, Bool.or_true])
+  obtain ⟨c1, c2, c3, c4, c5, c6⟩ := finish_clauses t _ n (fun v => decide (0 < v.sum))
+    (fun a b => a == 0 || decide (0 < b)) hwf hst.1 hst.2
+  simp only [holds, clauses, run, subsample, hk, List.all_cons, List.all_nil, List.cons_append, List.nil_append,
+    Bool.and_true, Bool.and_eq_true, beq_iff_eq, decide_true, true_and]
+  exact ⟨c1, c2, c3, c4, c5, c6⟩
+
+/-- by ID: `min n N` IDs, in the original order, other-axis IDs exactly those still non-zero,
+values unchanged — for every shuffle the generator may return -/
+theorem model_holds_byId (t : View) (lay : Lay) (n : Nat) (rng : Rng)
+    (hwf : viewWF t = true) (hperm : rng.shuffled.isPerm t.ids = true) :
+    holds t n .byId (run t lay n .byId rng) = true := by
+  obtain ⟨⟨hvl, hvr⟩, hnid, hnoid⟩ := (viewWF_iff t).mp hwf
+  have hp : rng.shuffled.Perm t.ids := List.isPerm_iff.mp hperm
+  have hrow' : ∀ v ∈ filterMask t.vecs (t.ids.map (fun id => (rng.shuffled.take n).contains id)),
+      v.length = t.oids.length := fun v hv => hvr v (mem_of_mem_filterMask hv)
+  simp only [holds, clauses, run, subsample, List.all_cons, List.all_nil, List.cons_append, List.nil_append,
+    Bool.and_true, Bool.and_eq_true, beq_iff_eq, decide_true, true_and]
+  refine ⟨?_, otherFilter_sublist _ _ _, otherFilter_nonzero _ _ _ hrow', ?_, ?_, ?_, ?_⟩
+  · exact otherFilter_wfb _ _ _ (filterMask_length_eq t.vecs t.ids _ hvl) hrow'
+  · rw [otherFilter_ids, List.isSublist_iff_sublist]
+    exact filterMask_sublist _ _
+  · rw [otherFilter_ids, filterMask_map_self]
+    have hS : (rng.shuffled.take n).Nodup :=
+      (List.take_sublist n _).nodup (hp.nodup_iff.mpr hnid)
+    have hperm2 : (t.ids.filter (fun id => (rng.shuffled.take n).contains id)).Perm (rng.shuffled.take n) := by
+      rw [List.perm_ext_iff_of_nodup ((List.filter_sublist).nodup hnid) hS]
+      intro a
+      simp only [List.mem_filter, List.contains_iff_mem]
+      constructor
+      · exact fun h => h.2
+      · exact fun h => ⟨hp.subset ((List.take_sublist n _).subset h), h⟩
+    rw [hperm2.length_eq, List.length_take, hp.length_eq]
+  · rw [otherFilter_ids, otherFilter_oids]
+    have : (filterMask t.ids (t.ids.map (fun id => (rng.shuffled.take n).contains id))).map
+        (fun id => (t.vec? id).getD []) = filterMask t.vecs (t.ids.map (fun id => (rng.shuffled.take n).contains id)) :=
+      map_lookupBy_filterMask t.ids t.vecs _ [] hnid hvl.symm
+    rw [this]
+  · apply cellsRel_filters (fun a b => a == b) t t.vecs _ hwf rfl hvr
+    intro i v d hv hd j
+    rw [hv] at hd
+    cases hd
+    simp
+
+/-- all modes at once; `pre` spells out every hypothesis, among them the guard for `withRepl` -/
+theorem model_holds_partial (t : View) (lay : Lay) (n : Nat) (mode : Mode) (rng : Rng)
+    (h : pre t lay n mode rng = true) : holds t n mode (run t lay n mode rng) = true := by
+  cases mode with
+  | without =>
+    simp only [pre, Bool.and_eq_true, decide_eq_true_eq] at h
+    exact model_holds_without t lay n rng h.1.1 h.2.1 h.1.2 h.2.2
+  | withRepl =>
+    simp only [pre, Bool.and_eq_true, decide_eq_true_eq, List.all_eq_true] at h
+    exact model_holds_withRepl_partial t lay n rng h.1.1 h.2.1.1 h.1.2 h.2.1.2 h.2.2
+  | byId =>
+    simp only [pre, Bool.and_eq_true, decide_eq_true_eq] at h
+    exact model_holds_byId t lay n rng h.1.1 h.2
+
+/-- the guard of `model_holds_withRepl_partial` is needed: with an all-zero vector on the axis the
+model (like the code: numpy's multinomial refuses an empty probability vector) raises, and the
+property's predicate is false.  `Table([[0,1],[0,2]]).subsample(2, with_replacement=True)`. -/
+theorem withRepl_empty_vector_witness :
+    let t : View := { ids := ["x", "y"], oids := ["a", "b"], vecs := [[0, 0], [1, 2]] }
+    let lay : Lay := [([], []), ([0, 1], [1, 2])]
+    viewWF t = true ∧ layOK t lay = true ∧
+      ∀ rng, holds t 2 .withRepl (run t lay 2 .withRepl rng) = false := by
+  refine ⟨by decide, by decide, ?_⟩
+  intro rng
+  simp [holds, clauses, run, subsample, kernelWith]
+
+/-! ### the property's sentences, one by one -/
+
+/-- "exactly the vectors whose total was at least n are retained" -/
+theorem retained_iff_total_ge_n (t : View) (lay : Lay) (n : Nat) (rng : Rng)
+    (hwf : viewWF t = true) (hlay : layOK t lay = true) (hn : 1 ≤ n)
+    (hrng : choicesOK n (lay.map (·.2)) rng.choices = true) :
+    ∃ r, subsample t lay n .without rng = .ok r ∧
+      ∀ id, id ∈ r.ids ↔ id ∈ t.ids ∧ n ≤ t.total id := by
+  have h := model_holds_without t lay n rng hwf hlay hn hrng
+  obtain ⟨outs, hk, _, _⟩ := kernelWithout_spec n hn _ _ hrng
+  simp only [holds, clauses, run, subsample, hk, List.all_cons, List.all_nil, List.cons_append, List.nil_append,
+    Bool.and_true, Bool.and_eq_true, beq_iff_eq, decide_true, true_and] at h
+  refine ⟨finish t (denseAfter t.oids.length lay outs), by simp only [subsample, hk], ?_⟩
+  intro id
+  rw [h.2.2.2.1]
+  simp [List.mem_filter]
+
+/-- "every retained vector sums to exactly n, every entry is a natural not exceeding the original" -/
+theorem without_sum_and_bound (t : View) (lay : Lay) (n : Nat) (rng : Rng)
+    (hwf : viewWF t = true) (hlay : layOK t lay = true) (hn : 1 ≤ n)
+    (hrng : choicesOK n (lay.map (·.2)) rng.choices = true) :
+    ∃ r, subsample t lay n .without rng = .ok r ∧ (∀ v ∈ r.vecs, v.sum = n) ∧
+      ∀ id ∈ r.ids, ∀ o ∈ r.oids, ∃ a b, r.cell? id o = some a ∧ t.cell? id o = some b ∧ a ≤ b := by
+  have h := model_holds_without t lay n rng hwf hlay hn hrng
+  obtain ⟨outs, hk, _, _⟩ := kernelWithout_spec n hn _ _ hrng
+  simp only [holds, clauses, run, subsample, hk, List.all_cons, List.all_nil, List.cons_append, List.nil_append,
+    Bool.and_true, Bool.and_eq_true, beq_iff_eq, decide_true, true_and] at h
+  refine ⟨finish t (denseAfter t.oids.length lay outs), by simp only [subsample, hk], ?_, ?_⟩
+  · intro v hv
+    have := List.all_eq_true.mp h.2.2.2.2.1 v hv
+    simpa using this
+  · intro id hid o ho
+    have := List.all_eq_true.mp (List.all_eq_true.mp h.2.2.2.2.2 id hid) o ho
+    revert this
+    cases h1 : View.cell? _ id o <;> cases h2 : t.cell? id o <;> simp
+
+/-- "vectors of the other axis left all-zero are dropped": whatever the mode, no vector of the
+other axis of a returned table is all-zero, and the other axis keeps its order -/
+theorem other_axis_empty_dropped (t : View) (lay : Lay) (n : Nat) (mode : Mode) (rng : Rng) (r : View)
+    (hwf : viewWF t = true) (hlay : mode ≠ .byId → layOK t lay = true)
+    (h : subsample t lay n mode rng = .ok r) :
+    r.oids.Sublist t.oids ∧ ∀ s ∈ colSums r.oids.length r.vecs, 0 < s := by
+  obtain ⟨⟨hvl, hvr⟩, hnid, hnoid⟩ := (viewWF_iff t).mp hwf
+  have key : ∀ (ids : List Id) (d : List (List Nat)), (∀ v ∈ d, v.length = t.oids.length) →
+      (otherFilter ids t.oids d).oids.Sublist t.oids ∧
+        ∀ s ∈ colSums (otherFilter ids t.oids d).oids.length (otherFilter ids t.oids d).vecs, 0 < s := by
+    intro ids d hd
+    refine ⟨List.isSublist_iff_sublist.mp (otherFilter_sublist _ _ _), ?_⟩
+    intro s hs
+    simpa using List.all_eq_true.mp (otherFilter_nonzero ids t.oids d hd) s hs
+  have hdense : ∀ outs, ∀ v ∈ filterMask (denseAfter t.oids.length lay outs)
+      ((denseAfter t.oids.length lay outs).map (fun v => decide (0 < v.sum))), v.length = t.oids.length := by
+    intro outs v hv
+    have := mem_of_mem_filterMask hv
+    simp only [denseAfter, List.mem_map] at this
+    obtain ⟨lo, _, rfl⟩ := this
+    exact scatter_length _ _ _
+  cases mode with
+  | byId =>
+    simp only [subsample, Except.ok.injEq] at h
+    subst h
+    exact key _ _ (fun v hv => hvr v (mem_of_mem_filterMask hv))
+  | without =>
+    simp only [subsample] at h
+    split at h
+    · cases h
+    · simp only [Except.ok.injEq] at h; subst h; exact key _ _ (hdense _)
+  | withRepl =>
+    simp only [subsample] at h
+    split at h
+    · cases h
+    · simp only [Except.ok.injEq] at h; subst h; exact key _ _ (hdense _)
+
+/-- "Subsampling by ID keeps min(n, N) IDs": exactly the first `n` of the shuffled IDs, in the
+table's order -/
+theorem byId_keeps_min (t : View) (lay : Lay) (n : Nat) (rng : Rng)
+    (hwf : viewWF t = true) (hperm : rng.shuffled.isPerm t.ids = true) :
+    ∃ r, subsample t lay n .byId rng = .ok r ∧ r.ids.length = min n t.ids.length ∧ r.ids.Sublist t.ids ∧
+      ∀ id, id ∈ r.ids ↔ id ∈ rng.shuffled.take n := by
+  have h := model_holds_byId t lay n rng hwf hperm
+  simp only [holds, clauses, run, subsample, List.all_cons, List.all_nil, List.cons_append, List.nil_append,
+    Bool.and_true, Bool.and_eq_true, beq_iff_eq, decide_true, true_and] at h
+  refine ⟨_, rfl, h.2.2.2.2.1, List.isSublist_iff_sublist.mp h.2.2.2.1, ?_⟩
+  intro id
+  have hp : rng.shuffled.Perm t.ids := List.isPerm_iff.mp hperm
+  rw [otherFilter_ids, filterMask_map_self]
+  simp only [List.mem_filter, List.contains_iff_mem]
+  exact ⟨fun h => h.2, fun h => ⟨hp.subset ((List.take_sublist n _).subset h), h⟩⟩
+
+/-- "the same seed reproduces the same result": the result is a function of the generator's answers -/
 theorem deterministic_in_rng_output (t : View) (lay : Lay) (n : Nat) (mode : Mode) (r1 r2 : Rng)
-    (h : r1 = r2) : subsample t lay n mode r1 = subsample t lay n mode r2 := by rw [h]
+    (h : r1 = r2) : run t lay n mode r1 = run t lay n mode r2 := by rw [h]
+
+/-- "the input table is never modified" (the model works on the copy; the harness checks the real table) -/
+theorem input_unchanged (t : View) (lay : Lay) (n : Nat) (mode : Mode) (rng : Rng) :
+    (run t lay n mode rng).after = t := rfl
+
+/-! ### the hypotheses are met by concrete, non-trivial inputs -/
+
+deriving instance DecidableEq for Except
+
+/-- the 4x3 table of the repaired defect along observations, n = 3, the generator's answers of seed 1 -/
+def exT : View := { ids := ["a", "b", "c", "d"], oids := ["x", "y", "z"], vecs := [[1, 2, 0], [2, 1, 3], [3, 3, 4], [0, 2, 1]] }
+def exLay : Lay := [([0, 1], [1, 2]), ([0, 1, 2], [2, 1, 3]), ([0, 1, 2], [3, 3, 4]), ([1, 2], [2, 1])]
+def exRng : Rng := { choices := [[0, 1, 2], [3, 4, 0], [1, 7, 9], [0, 1, 2]] }
+
+example : viewWF exT = true ∧ layOK exT exLay = true ∧ choicesOK 3 (exLay.map (·.2)) exRng.choices = true := by
+  decide
+
+example : subsample exT exLay 3 .without exRng =
+    .ok { ids := ["a", "b", "c", "d"], oids := ["x", "y", "z"], vecs := [[1, 2, 0], [1, 0, 2], [1, 0, 2], [0, 2, 1]] } := by
+  decide
+
+/-- a vector below n is dropped, and the other axis loses the IDs left without counts -/
+example : subsample exT exLay 4 .without { choices := [[4, 0, 1, 3], [7, 1, 0, 6]] } =
+    .ok { ids := ["b", "c"], oids := ["x", "z"], vecs := [[2, 2], [2, 2]] } := by
+  decide
+
+example : choicesOK 4 (exLay.map (·.2)) [[4, 0, 1, 3], [7, 1, 0, 6]] = true := by decide
+
+example : walk [3, 0, 2, 4] [0, 2, 3, 8] = .ok [2, 0, 1, 1] := by decide
+example : walk [3, 0, 2, 4] [4, 5, 6, 7, 8] = .ok [0, 0, 1, 4] := by decide
+/-- a position outside the vector makes the checked read fail: the hypothesis of `walk_hist` is needed -/
+example : walk [3, 0, 2, 4] [8, 9] = .error .index := by decide
+
+example : multisOK 2 [[1, 2], [5]] [[0, 2], [2]] = true ∧
+    subsample { ids := ["x", "y"], oids := ["a", "b"], vecs := [[1, 2], [0, 5]] } [([0, 1], [1, 2]), ([1], [5])] 2 .withRepl
+      { multis := [[0, 2], [2]] } = .ok { ids := ["x", "y"], oids := ["b"], vecs := [[2], [2]] } := by
+  decide
+
+example : (["z", "x", "y"] : List Id).isPerm ["x", "y", "z"] = true ∧
+    subsample { ids := ["x", "y", "z"], oids := ["a", "b"], vecs := [[0, 0], [1, 2], [0, 0]] } [] 2 .byId
+      { shuffled := ["z", "x", "y"] } = .ok { ids := ["x", "z"], oids := [], vecs := [[], []] } := by
+  decide
+
 end Biom.C12
